@@ -225,6 +225,17 @@ def recoverSteps (s : St) : List Step :=
 
 def recover (v : Variant) (s : St) : St := run v s (recoverSteps s)
 
+/-- one whole upload as one sync handler sees it: the source stored the blob, then this handler's
+hook (`enqueue`) ran with its own queue write succeeding (`ok`) or failing -/
+def uploadOne (v : Variant) (s : St) (i : Nat) (ok : Bool) : St :=
+  step v (step v (step v s (.srcRecv i)) (.qSet i ok)) (.memAdd i ok)
+
+/-- a source with several sync destinations is a product of independent machines over one upload
+stream (pkg/blobserver/blobhub.go:121 `NotifyBlobReceived` runs every receive hook): the upload of
+`i` during which the queue write of handler number `h` (1-based; 0 = none) fails -/
+def uploadAll (v : Variant) (ms : List St) (i h : Nat) : List St :=
+  ms.mapIdx (fun j s => uploadOne v s i (j + 1 != h))
+
 /-- a step is failure-free -/
 def Step.clean : Step → Bool
   | .qSet _ ok | .memAdd _ ok | .qDel _ ok => ok
